@@ -271,8 +271,12 @@ class C06(Prop):
     id = "C06"
     title = "Reference counts are exact: no leaks, nothing freed while referenced"
     lean_modules = ["NV.C06.Props", "NV.C06.Witness"]
-    theorems = []
-    witness_theorems = []
+    theorems = ["NV.C06.widths_agree", "NV.C06.ref_eq_holders", "NV.C06.no_free_while_held",
+                "NV.C06.primitives_preserve_invariant", "NV.C06.string_never_freed_while_held",
+                "NV.C06.string_saturates", "NV.C06.counters_exact", "NV.C06.balanced_history_returns_to_baseline",
+                "NV.C06.run_ok", "NV.C06.mstep_ok", "NV.C06.Fits_of_le"]
+    witness_theorems = ["NV.C06.wrap_uaf", "NV.C06.wrap_uaf_state", "NV.C06.cycle_leaks",
+                        "NV.C06.object_cycle_cut_by_destruct"]
     consts = [("refBits", "sizeof(((refed_t*)0)->ref) * 8"),
               ("arrRefBits", "sizeof(((array_t*)0)->ref) * 8"),
               ("mapRefBits", "sizeof(((mapping_t*)0)->ref) * 8"),
@@ -359,8 +363,12 @@ class C06(Prop):
             # exactly 2^16 - 1 holders: still exact
             mk("holders-65535-" + mode, mode, ["newarr 0 1"] + big + ["fill 5 9533 0", "assign 6 0", "free 6"] + rel)
             mk("cycle-array-" + mode, mode, ["newarr 0 2", "aset 0 0 0", "free 0"])
-            mk("cycle-map-obj-" + mode, mode, ["newobj 0", "newmap 1", "setvar 0 0 1", "newfun 2 0 1", "mset 1 1 2",
-                                               "free 1", "free 2", "dest 0", "cleanup", "drop 0"])
+            mk("cycle-map-selfkey-" + mode, mode, ["newmap 1", "mset 1 1 1", "free 1"])
+            mk("cycle-map-fn-args-" + mode, mode, ["newobj 0", "newmap 1", "newfun 2 0 1", "mset 1 3 2", "free 1", "free 2",
+                                                   "dest 0", "cleanup", "drop 0"])
+            # object -> mapping -> function pointer -> object: cut by destruct2, returns to the baseline
+            mk("cycle-cut-by-destruct-" + mode, mode, ["newobj 0", "newmap 1", "setvar 0 0 1", "newfun 2 0 3", "mset 1 3 2",
+                                                       "free 1", "free 2", "dest 0", "cleanup", "drop 0"])
             mk("callback-outlives-" + mode, mode, ["newobj 0", "newobj 1", "newarr 0 3", "newmap 1", "mset 1 0 0",
                                                    "call 0 0 1 1 0", "call 1 1 0 0 1", "sent 0 1 0 1", "free 0", "free 1",
                                                    "dest 1", "sweep", "getvar 3 0 0", "dest 0", "cleanup", "free 3",
